@@ -2387,8 +2387,9 @@ func madeOutside(v ssa.Value, l *natLoop) bool {
 
 func ruleSizePrecedence(r *Run) {
 	p := r.P
-	fn := r.mustFunc(pkgDoc, "(*Document).calculateDisplaySize")
+	fn := sizingFunc(p)
 	if fn == nil {
+		r.Unresolved("sizing function (reads ImageSize.Width/Height, returns two integers)")
 		return
 	}
 	cmpField := func(v ssa.Value) string {
@@ -2935,6 +2936,17 @@ func ruleReaderInputOnly(r *Run) {
 // that is marshalled into word/_rels/document.xml.rels and _rels/.rels.
 // ---------------------------------------------------------------------------
 
+// paramIndexOfKey: the index of the parameter of h that is the key of map update mu (0 if the key
+// is not a plain parameter).
+func paramIndexOfKey(h *ssa.Function, mu *ssa.MapUpdate) int {
+	if par, ok := mu.Key.(*ssa.Parameter); ok {
+		if pi := paramIndex(h, par); pi >= 0 {
+			return pi
+		}
+	}
+	return 0
+}
+
 func ruleRelSerialiseAll(r *Run) {
 	p := r.P
 	n := 0
@@ -2960,6 +2972,46 @@ func ruleRelSerialiseAll(r *Run) {
 		for _, mv := range marshalled {
 			if mi, ok := mv.(*ssa.MakeInterface); ok {
 				mv = mi.X
+			}
+			// marshalled inside a keyed helper (storeXMLPart(name, v), possibly through a second helper
+			// that does the marshalling): the value is a helper's parameter — follow it up to the
+			// argument at the call site in the function the store stands for
+			reach := p.staticReach(fn)
+			for depth := 0; depth < 4; depth++ {
+				par, ok := mv.(*ssa.Parameter)
+				if !ok || par.Parent() == fn {
+					break
+				}
+				h := par.Parent()
+				pi := paramIndex(h, par)
+				var next ssa.Value
+				for _, g := range append([]*ssa.Function{fn}, sortedFuncs(reach)...) {
+					if next != nil {
+						break
+					}
+					allInstrs(g, func(in ssa.Instruction) {
+						c, ok := in.(ssa.CallInstruction)
+						if !ok || next != nil || staticCallee(c) != h || pi >= len(c.Common().Args) {
+							return
+						}
+						// when the helper also takes the part name, it must be this part's
+						if g == fn {
+							for _, a := range c.Common().Args {
+								if k2, isC2 := symOf(a).isConst(); isC2 && strings.Contains(k2, "/") && strings.HasSuffix(k2, "rels") && k2 != k {
+									return
+								}
+							}
+						}
+						next = c.Common().Args[pi]
+					})
+				}
+				if next == nil {
+					break
+				}
+				if mi, ok := next.(*ssa.MakeInterface); ok {
+					next = mi.X
+				}
+				mv = next
 			}
 			n++
 			key := shortName(fn) + ":" + k
@@ -3096,4 +3148,195 @@ func ruleMarshalAttrUnique(r *Run) {
 		}
 	}
 	r.Min("encode_element_calls_with_module_structs", n, 5)
+}
+
+// sizingFunc: the function that turns an ImageSize request into the displayed extent — found by
+// role (reads ImageSize.Width and ImageSize.Height, returns two integers), not by name.
+func sizingFunc(p *Program) *ssa.Function {
+	var best *ssa.Function
+	for _, fn := range p.ModFuncs() {
+		if fn.Pkg == nil || fn.Pkg.Pkg.Path() != pkgDoc || fn.Parent() != nil {
+			continue
+		}
+		res := fn.Signature.Results()
+		if res.Len() != 2 {
+			continue
+		}
+		ints := true
+		for i := 0; i < 2; i++ {
+			if b, ok := res.At(i).Type().Underlying().(*types.Basic); !ok || b.Info()&types.IsInteger == 0 {
+				ints = false
+			}
+		}
+		if !ints {
+			continue
+		}
+		w, h := false, false
+		allInstrs(fn, func(in ssa.Instruction) {
+			if fa, ok := in.(*ssa.FieldAddr); ok {
+				if fv, _ := fieldOfAddr(fa); fv != nil {
+					if fieldIs(p, fv, pkgDoc, "ImageSize", "Width") {
+						w = true
+					}
+					if fieldIs(p, fv, pkgDoc, "ImageSize", "Height") {
+						h = true
+					}
+				}
+			}
+		})
+		if w && h && (best == nil || fn.Pos() < best.Pos()) {
+			best = fn
+		}
+	}
+	return best
+}
+
+// ---------------------------------------------------------------------------
+// R-SCALE-BEFORE-TRUNC (C10): the requested size in millimetres is a float; it is scaled to EMU
+// (×36000) and only THEN converted to an integer.  A float→int conversion applied to the raw
+// millimetre value (int64(mm) * 36000) silently drops the fraction: 12.7 mm becomes 12 mm.
+// Decided on every float→integer conversion in the sizing function and the helpers it calls.
+// ---------------------------------------------------------------------------
+
+func ruleScaleBeforeTrunc(r *Run) {
+	p := r.P
+	fn := sizingFunc(p)
+	if fn == nil {
+		r.Unresolved("sizing function (reads ImageSize.Width/Height, returns two integers)")
+		return
+	}
+	group := []*ssa.Function{fn}
+	for g := range p.staticReach(fn) {
+		if g != fn && g.Pkg != nil && g.Pkg.Pkg.Path() == pkgDoc {
+			group = append(group, g)
+		}
+	}
+	isRawSize := func(v ssa.Value) bool {
+		var fv *types.Var
+		switch x := v.(type) {
+		case *ssa.UnOp:
+			if x.Op == token.MUL {
+				fv, _ = fieldOfAddr(x.X)
+			}
+		case *ssa.Field:
+			fv, _ = fieldOfVal(x)
+		}
+		return fv != nil && (fieldIs(p, fv, pkgDoc, "ImageSize", "Width") || fieldIs(p, fv, pkgDoc, "ImageSize", "Height"))
+	}
+	n := 0
+	for _, g := range sortedFuncs(funcSet(group)) {
+		allInstrs(g, func(in ssa.Instruction) {
+			cv, ok := in.(*ssa.Convert)
+			if !ok {
+				return
+			}
+			from, ok1 := cv.X.Type().Underlying().(*types.Basic)
+			to, ok2 := cv.Type().Underlying().(*types.Basic)
+			if !ok1 || !ok2 || from.Info()&types.IsFloat == 0 || to.Info()&types.IsInteger == 0 {
+				return
+			}
+			raw := isRawSize(cv.X)
+			if par, ok := cv.X.(*ssa.Parameter); ok && g != fn {
+				pi := paramIndex(g, par)
+				for _, caller := range group {
+					allInstrs(caller, func(in2 ssa.Instruction) {
+						if c, ok := in2.(ssa.CallInstruction); ok && staticCallee(c) == g && pi < len(c.Common().Args) && isRawSize(c.Common().Args[pi]) {
+							raw = true
+						}
+					})
+				}
+			}
+			n++
+			r.Check("scale-before-trunc", fmt.Sprintf("%s#%d", shortName(g), n), cv.Pos(), !raw,
+				fmt.Sprintf("%s converts the requested size in millimetres to an integer before scaling it to EMU: the fraction of a millimetre is dropped (12.7 mm is displayed as 12 mm); scale first (mm × 36000), convert afterwards", shortName(g)))
+		})
+	}
+	r.Min("float_to_int_conversions_in_sizing", n, 2)
+}
+
+// ---------------------------------------------------------------------------
+// R-REGISTRY-KEY-FRESH (C15, C13): the id under which a note or numbering instance is registered
+// must be new for ANY history of additions and removals.  An id computed from the current size of
+// the registry (len(m.footnotes)+1) repeats an id that is still in use as soon as an earlier entry
+// has been removed; the new entry then replaces a live one.  The key of every insertion into a
+// registry map must depend on an integer field of the registry object (a counter), not on len() of
+// that map.  Dependence slice of the key, followed upwards through helper parameters.
+// ---------------------------------------------------------------------------
+
+func ruleRegistryKeyFresh(r *Run) {
+	p := r.P
+	clones := map[*ssa.Function]bool{}
+	for _, c := range discoverClones(p, pkgDoc) {
+		clones[c.Fn] = true
+	}
+	owners := map[string]bool{"FootnoteManager": true, "NumberingManager": true}
+	sl := newSlicer(p)
+	sl.dataOnly = true
+	n := 0
+	for _, fn := range p.ModFuncs() {
+		if fn.Pkg == nil || fn.Pkg.Pkg.Path() != pkgDoc || clones[topLevel(fn)] {
+			continue
+		}
+		allInstrs(fn, func(in ssa.Instruction) {
+			mu, ok := in.(*ssa.MapUpdate)
+			if !ok {
+				return
+			}
+			ld, ok := mu.Map.(*ssa.UnOp)
+			if !ok || ld.Op != token.MUL {
+				return
+			}
+			fv, base := fieldOfAddr(ld.X)
+			if fv == nil {
+				return
+			}
+			o := fieldOwner(p, fv)
+			if o == nil || !owners[o.Obj().Name()] {
+				return
+			}
+			if _, fresh := stripLoads(base).(*ssa.Alloc); fresh {
+				return // filling an object created here (clone / constructor)
+			}
+			// memo tables keyed by a configuration string are not id registries
+			if !isStringType(mu.Key.Type()) {
+				return
+			}
+			res := sl.SliceUp(mu.Key)
+			usesLen, usesCounter, fromInt := false, false, false
+			for v := range res.Vals {
+				switch x := v.(type) {
+				case *ssa.Call:
+					if b, ok := x.Call.Value.(*ssa.Builtin); ok && b.Name() == "len" {
+						if l2, ok := x.Call.Args[0].(*ssa.UnOp); ok && l2.Op == token.MUL {
+							if f2, _ := fieldOfAddr(l2.X); f2 != nil {
+								if o2 := fieldOwner(p, f2); o2 != nil && owners[o2.Obj().Name()] {
+									usesLen = true
+								}
+							}
+						}
+					}
+					switch calleeName(x) {
+					case "strconv.Itoa", "strconv.FormatInt":
+						fromInt = true
+					}
+				case *ssa.FieldAddr:
+					if f2, _ := fieldOfAddr(x); f2 != nil {
+						if o2 := fieldOwner(p, f2); o2 != nil && owners[o2.Obj().Name()] {
+							if b, ok := f2.Type().Underlying().(*types.Basic); ok && b.Info()&types.IsInteger != 0 {
+								usesCounter = true
+							}
+						}
+					}
+				}
+			}
+			if !fromInt && !usesLen && !usesCounter {
+				return // a key that is not a generated number (memo key built from the configuration)
+			}
+			n++
+			ok2 := usesCounter && !usesLen
+			r.Check("registry-key-fresh", fmt.Sprintf("%s:%s.%s", shortName(topLevel(fn)), o.Obj().Name(), fv.Name()), mu.Pos(), ok2,
+				fmt.Sprintf("%s registers an entry in %s.%s under an id that %s; ids must come from a counter kept in the registry — an id derived from the number of entries present is handed out again after a removal and the new entry replaces one that is still referenced", shortName(topLevel(fn)), o.Obj().Name(), fv.Name(), map[bool]string{true: "comes from a counter field", false: fmt.Sprintf("does not (counter field read: %v, len() of the registry read: %v)", usesCounter, usesLen)}[ok2]))
+		})
+	}
+	r.Min("registry_insertions_with_generated_ids", n, 3)
 }
